@@ -1,4 +1,445 @@
-import AwModel.Store.Sqlite
-/-! # C05 — placeholder while the lifecycle theorems are being written (no claims yet) -/
+import AwProofs.Lemmas.StoreOpsSqlite
+import AwProofs.Lemmas.StoreOpsMemory
+import AwProofs.Lemmas.StoreOpsPeewee
+import AwProofs.Lemmas.StoreOpsSpec
+/-!
+# C05 — Bucket lifecycle: create, list, describe, update, delete behave as a keyed map
+
+Property theorems only. `B.view s b` is what a client reads back of bucket `b` (`none` = no such
+bucket; `some (metadata, events)`), `B.bucketsOf s` the listing `buckets()`, `B.getMetadata` the
+describe call, `B.step s op` the state after `op` (unchanged when the operation is rejected).
+`Meta` carries every stored metadata field: name, type, client, hostname, creation instant, data.
+
+The stored metadata is exactly the metadata given — for the memory backend with its documented
+ defaulting (`Memory.storedMeta`: a falsy `name` becomes the bucket id). An update writes exactly the
+supplied fields: for the SQL backends every field that is not `None` (`Upd.apply`), for the memory
+backend every truthy field (`Memory.memApply`); `update_fields_*` spell this out field by field.
+The bucket-lookup `KeyError` of `Datastore.__getitem__` is raised by the driver exactly when the id
+is not in the listing, i.e. (`listing_is_view_*`) when `view s b = none`.
+-/
 namespace AwProofs.C05
+open Aw Aw.Store
+variable {D : Type}
+
+/-! ## update writes exactly the supplied fields -/
+
+/-- SQL backends: a field that is supplied is written, a field that is not supplied keeps its
+    value; the creation instant can not be changed -/
+theorem update_fields_sql (u : Upd) (m : Meta) :
+    (u.apply m).type = u.type.getD m.type ∧
+    (u.apply m).client = u.client.getD m.client ∧
+    (u.apply m).hostname = u.hostname.getD m.hostname ∧
+    (u.apply m).name = (match u.name with | some n => some n | none => m.name) ∧
+    (u.apply m).data = u.data.getD m.data ∧
+    (u.apply m).created = m.created := ⟨rfl, rfl, rfl, rfl, rfl, rfl⟩
+
+/-- SQL backends: fields not supplied are unchanged -/
+theorem update_none_unchanged_sql (u : Upd) (m : Meta) :
+    (u.type = none → (u.apply m).type = m.type) ∧
+    (u.client = none → (u.apply m).client = m.client) ∧
+    (u.hostname = none → (u.apply m).hostname = m.hostname) ∧
+    (u.name = none → (u.apply m).name = m.name) ∧
+    (u.data = none → (u.apply m).data = m.data) ∧
+    (u.isEmpty = true → u.apply m = m) := by
+  refine ⟨?_, ?_, ?_, ?_, ?_, ?_⟩
+  · intro h; simp only [Upd.apply, h, Option.getD_none]
+  · intro h; simp only [Upd.apply, h, Option.getD_none]
+  · intro h; simp only [Upd.apply, h, Option.getD_none]
+  · intro h; simp only [Upd.apply, h]
+  · intro h; simp only [Upd.apply, h, Option.getD_none]
+  · intro h
+    obtain ⟨t, c, hn, n, d⟩ := u
+    simp only [Upd.isEmpty, Bool.and_eq_true, Option.isNone_iff_eq_none] at h
+    obtain ⟨⟨⟨⟨rfl, rfl⟩, rfl⟩, rfl⟩, rfl⟩ := h
+    rfl
+
+/-- memory backend: exactly the truthy fields are written (`""` and the empty dict `{}` count as
+    not supplied); the creation instant can not be changed -/
+theorem update_fields_memory (u : Upd) (m : Meta) :
+    (Memory.memApply u m).type = (Memory.truthy u.type).getD m.type ∧
+    (Memory.memApply u m).client = (Memory.truthy u.client).getD m.client ∧
+    (Memory.memApply u m).hostname = (Memory.truthy u.hostname).getD m.hostname ∧
+    (Memory.memApply u m).name =
+      (match Memory.truthy u.name with | some n => some n | none => m.name) ∧
+    (Memory.memApply u m).data =
+      (match u.data with | some d => if d = "{}" then m.data else d | none => m.data) ∧
+    (Memory.memApply u m).created = m.created := ⟨rfl, rfl, rfl, rfl, rfl, rfl⟩
+
+/-- memory backend: fields not supplied are unchanged -/
+theorem update_none_unchanged_memory (u : Upd) (m : Meta) :
+    (u.type = none → (Memory.memApply u m).type = m.type) ∧
+    (u.client = none → (Memory.memApply u m).client = m.client) ∧
+    (u.hostname = none → (Memory.memApply u m).hostname = m.hostname) ∧
+    (u.name = none → (Memory.memApply u m).name = m.name) ∧
+    (u.data = none → (Memory.memApply u m).data = m.data) ∧
+    (u.isEmpty = true → Memory.memApply u m = m) := by
+  refine ⟨?_, ?_, ?_, ?_, ?_, ?_⟩
+  · intro h; simp only [Memory.memApply, h, Memory.truthy, Option.getD_none]
+  · intro h; simp only [Memory.memApply, h, Memory.truthy, Option.getD_none]
+  · intro h; simp only [Memory.memApply, h, Memory.truthy, Option.getD_none]
+  · intro h; simp only [Memory.memApply, h, Memory.truthy]
+  · intro h; simp only [Memory.memApply, h]
+  · intro h
+    obtain ⟨t, c, hn, n, d⟩ := u
+    simp only [Upd.isEmpty, Bool.and_eq_true, Option.isNone_iff_eq_none] at h
+    obtain ⟨⟨⟨⟨rfl, rfl⟩, rfl⟩, rfl⟩, rfl⟩ := h
+    rfl
+
+/-! ## Sqlite -/
+
+/-- the listing is the view: `(b, m)` is listed iff bucket `b` reads back with metadata `m` -/
+theorem listing_is_view_sqlite {s : Sqlite.St D} (hI : Sqlite.Inv s) (b : String) (m : Meta) :
+    (b, m) ∈ Sqlite.bucketsOf s ↔ ∃ es, Sqlite.view s b = some (m, es) :=
+  Sqlite.bucketsOf_eq hI b m
+
+/-- no bucket id is listed twice -/
+theorem listing_keys_unique_sqlite {s : Sqlite.St D} (hI : Sqlite.Inv s) :
+    ((Sqlite.bucketsOf s).map (·.1)).Nodup := by
+  unfold Sqlite.bucketsOf
+  rw [List.map_map]
+  exact List.pairwise_map.mpr (hI.1.imp (fun h => h.1))
+
+/-- describing a bucket returns the metadata of the view -/
+theorem describe_is_view_sqlite {s : Sqlite.St D} (hI : Sqlite.Inv s) (b : String) :
+    Sqlite.getMetadata s b =
+      (match Sqlite.view s b with | some (m, _) => .ok m | none => .error .valueError) :=
+  Sqlite.getMetadata_eq hI b
+
+/-- creating a bucket under a fresh id: it reads back empty with exactly the metadata given, is
+    listed (once) with that metadata, and every other bucket and listing entry is unchanged -/
+theorem create_listed_sqlite {s : Sqlite.St D} (hI : Sqlite.Inv s) {b : String}
+    (hb : Sqlite.view s b = none) (m : Meta) :
+    let s' := Sqlite.step s (.create b m)
+    Sqlite.view s' b = some (m, []) ∧
+    (b, m) ∈ Sqlite.bucketsOf s' ∧ (∀ m', (b, m') ∈ Sqlite.bucketsOf s' → m' = m) ∧
+    (∀ b', b' ≠ b → Sqlite.view s' b' = Sqlite.view s b') ∧
+    (∀ b' m', b' ≠ b → ((b', m') ∈ Sqlite.bucketsOf s' ↔ (b', m') ∈ Sqlite.bucketsOf s)) := by
+  intro s'
+  have hI' : Sqlite.Inv s' := Sqlite.inv_step hI _
+  have hv : Sqlite.view s' = Spec.create (Sqlite.view s) b m := Sqlite.refines hI (.create b m) hb
+  have hvb : Sqlite.view s' b = some (m, []) := by rw [hv]; exact create_self _ b m
+  have hfr : ∀ b', b' ≠ b → Sqlite.view s' b' = Sqlite.view s b' :=
+    fun b' h => Sqlite.only_step hI (.create b m) b' h
+  obtain ⟨h1, h2⟩ := listed_of_view (Sqlite.bucketsOf_eq hI') hvb
+  exact ⟨hvb, h1, h2, hfr, fun b' m' h =>
+    listed_congr (Sqlite.bucketsOf_eq hI) (Sqlite.bucketsOf_eq hI') (hfr b' h) m'⟩
+
+/-- creating under an id that exists is rejected (IntegrityError) and changes nothing -/
+theorem create_existing_rejected_sqlite {s : Sqlite.St D} (hI : Sqlite.Inv s) {b : String}
+    (hb : (Sqlite.view s b).isSome) (m : Meta) :
+    Sqlite.createBucket s b m = .error .integrity ∧ Sqlite.step s (.create b m) = s := by
+  have h := Sqlite.createBucket_exists (m := m) hI hb
+  exact ⟨h, by simp only [Sqlite.step, h]⟩
+
+/-- an update (at least one field supplied) changes the metadata to `u.apply m`
+    (`update_fields_sql`), keeps the events, and leaves every other bucket alone -/
+theorem update_only_supplied_sqlite {s : Sqlite.St D} (hI : Sqlite.Inv s) {b : String} {m : Meta}
+    {es : List (Ev D)} (hv : Sqlite.view s b = some (m, es)) {u : Upd} (hu : u.isEmpty = false) :
+    let s' := Sqlite.step s (.update b u)
+    Sqlite.view s' b = some (u.apply m, es) ∧ Sqlite.getMetadata s' b = .ok (u.apply m) ∧
+    (∀ b', b' ≠ b → Sqlite.view s' b' = Sqlite.view s b') := by
+  intro s'
+  have hI' : Sqlite.Inv s' := Sqlite.inv_step hI _
+  have hv' : Sqlite.view s' = Spec.update (Sqlite.view s) b u.apply :=
+    Sqlite.refines hI (.update b u) ⟨by rw [hv]; rfl, fun _ => hu⟩
+  have hvb : Sqlite.view s' b = some (u.apply m, es) := by rw [hv']; exact update_self hv _
+  refine ⟨hvb, ?_, fun b' h => Sqlite.only_step hI (.update b u) b' h⟩
+  rw [Sqlite.getMetadata_eq hI', hvb]
+
+/-- an update that supplies no field is rejected (ValueError) and changes nothing -/
+theorem update_empty_rejected_sqlite (s : Sqlite.St D) (b : String) {u : Upd}
+    (hu : u.isEmpty = true) :
+    Sqlite.updateBucket s b u = .error .valueError ∧ Sqlite.step s (.update b u) = s := by
+  have h := Sqlite.updateBucket_empty (s := s) (b := b) hu
+  exact ⟨h, by simp only [Sqlite.step, h]⟩
+
+/-- deleting a bucket removes it from view and listing; every other bucket is unchanged -/
+theorem delete_removes_bucket_and_events_sqlite {s : Sqlite.St D} (hI : Sqlite.Inv s) {b : String}
+    (hb : (Sqlite.view s b).isSome) :
+    let s' := Sqlite.step s (.deleteBucket b)
+    Sqlite.view s' b = none ∧ (∀ m, (b, m) ∉ Sqlite.bucketsOf s') ∧
+    Sqlite.getMetadata s' b = .error .valueError ∧
+    (∀ b', b' ≠ b → Sqlite.view s' b' = Sqlite.view s b') := by
+  intro s'
+  have hI' : Sqlite.Inv s' := Sqlite.inv_step hI _
+  have hv' : Sqlite.view s' = Spec.deleteBucket (Sqlite.view s) b :=
+    Sqlite.refines hI (.deleteBucket b) hb
+  have hvb : Sqlite.view s' b = none := by rw [hv']; exact deleteBucket_self _ b
+  refine ⟨hvb, unlisted_of_view (Sqlite.bucketsOf_eq hI') hvb, ?_,
+    fun b' h => Sqlite.only_step hI (.deleteBucket b) b' h⟩
+  rw [Sqlite.getMetadata_eq hI', hvb]
+
+/-- delete then create under the same id: an empty bucket with the new metadata — none of the old
+    events comes back -/
+theorem recreate_is_empty_sqlite {s : Sqlite.St D} (hI : Sqlite.Inv s) {b : String}
+    (hb : (Sqlite.view s b).isSome) (m : Meta) :
+    Sqlite.view (Sqlite.step (Sqlite.step s (.deleteBucket b)) (.create b m)) b = some (m, []) :=
+  (create_listed_sqlite (Sqlite.inv_step hI _)
+    (delete_removes_bucket_and_events_sqlite hI hb).1 m).1
+
+/-- on a bucket that does not exist: not listed (the driver's KeyError); describe, update and
+    delete raise ValueError; the state is unchanged -/
+theorem missing_raises_and_unchanged_sqlite {s : Sqlite.St D} (hI : Sqlite.Inv s) {b : String}
+    (hb : Sqlite.view s b = none) :
+    (∀ m, (b, m) ∉ Sqlite.bucketsOf s) ∧
+    Sqlite.getMetadata s b = .error .valueError ∧
+    (∀ u, Sqlite.updateBucket s b u = .error .valueError ∧ Sqlite.step s (.update b u) = s) ∧
+    Sqlite.deleteBucket s b = .error .valueError ∧ Sqlite.step s (.deleteBucket b) = s := by
+  refine ⟨unlisted_of_view (Sqlite.bucketsOf_eq hI) hb, ?_, ?_, ?_, ?_⟩
+  · rw [Sqlite.getMetadata_eq hI, hb]
+  · intro u
+    have h := Sqlite.updateBucket_missing (u := u) hI hb
+    exact ⟨h, by simp only [Sqlite.step, h]⟩
+  · exact Sqlite.deleteBucket_missing hI hb
+  · simp only [Sqlite.step, Sqlite.deleteBucket_missing hI hb]
+
+/-! ## Memory -/
+
+/-- the listing is the view: `(b, m)` is listed iff bucket `b` reads back with metadata `m` -/
+theorem listing_is_view_memory {s : Memory.St D} (hI : Memory.Inv s) (b : String) (m : Meta) :
+    (b, m) ∈ Memory.bucketsOf s ↔ ∃ es, Memory.view s b = some (m, es) :=
+  Memory.bucketsOf_eq hI b m
+
+/-- no bucket id is listed twice -/
+theorem listing_keys_unique_memory {s : Memory.St D} (hI : Memory.Inv s) :
+    ((Memory.bucketsOf s).map (·.1)).Nodup := by
+  unfold Memory.bucketsOf
+  rw [List.map_map]
+  exact hI.1
+
+/-- describing a bucket returns the metadata of the view -/
+theorem describe_is_view_memory {s : Memory.St D} (hI : Memory.Inv s) (b : String) :
+    Memory.getMetadata s b =
+      (match Memory.view s b with | some (m, _) => .ok m | none => .error .valueError) :=
+  Memory.getMetadata_eq hI b
+
+/-- creating a bucket: it reads back empty with the metadata given (`name` defaulted to the id
+    when falsy), is listed once with it, everything else unchanged. The memory backend does not
+    reject an existing id: the bucket is replaced by an empty one. -/
+theorem create_listed_memory {s : Memory.St D} (hI : Memory.Inv s) (b : String) (m : Meta) :
+    let s' := Memory.step s (.create b m)
+    Memory.view s' b = some (Memory.storedMeta b m, []) ∧
+    (b, Memory.storedMeta b m) ∈ Memory.bucketsOf s' ∧
+    (∀ m', (b, m') ∈ Memory.bucketsOf s' → m' = Memory.storedMeta b m) ∧
+    (∀ b', b' ≠ b → Memory.view s' b' = Memory.view s b') ∧
+    (∀ b' m', b' ≠ b → ((b', m') ∈ Memory.bucketsOf s' ↔ (b', m') ∈ Memory.bucketsOf s)) := by
+  intro s'
+  have hI' : Memory.Inv s' := Memory.inv_step hI _
+  have hv : Memory.view s' = Spec.create (Memory.view s) b (Memory.storedMeta b m) :=
+    Memory.createBucket_view hI b m
+  have hvb : Memory.view s' b = some (Memory.storedMeta b m, []) := by
+    rw [hv]; exact create_self _ b _
+  have hfr : ∀ b', b' ≠ b → Memory.view s' b' = Memory.view s b' :=
+    fun b' h => Memory.only_step hI (.create b m) b' h
+  obtain ⟨h1, h2⟩ := listed_of_view (Memory.bucketsOf_eq hI') hvb
+  exact ⟨hvb, h1, h2, hfr, fun b' m' h =>
+    listed_congr (Memory.bucketsOf_eq hI) (Memory.bucketsOf_eq hI') (hfr b' h) m'⟩
+
+/-- the stored metadata is the metadata given, except that a falsy name becomes the bucket id -/
+theorem stored_meta_memory (b : String) (m : Meta) :
+    (Memory.storedMeta b m).type = m.type ∧ (Memory.storedMeta b m).client = m.client ∧
+    (Memory.storedMeta b m).hostname = m.hostname ∧ (Memory.storedMeta b m).created = m.created ∧
+    (Memory.storedMeta b m).data = m.data ∧
+    (Memory.storedMeta b m).name =
+      (match Memory.truthy m.name with | some n => some n | none => some b) :=
+  ⟨rfl, rfl, rfl, rfl, rfl, rfl⟩
+
+/-- an update changes the metadata to `memApply u m` (`update_fields_memory`), keeps the events, and
+    leaves every other bucket alone -/
+theorem update_only_supplied_memory {s : Memory.St D} (hI : Memory.Inv s) {b : String} {m : Meta}
+    {es : List (Ev D)} (hv : Memory.view s b = some (m, es)) (u : Upd) :
+    let s' := Memory.step s (.update b u)
+    Memory.view s' b = some (Memory.memApply u m, es) ∧
+    Memory.getMetadata s' b = .ok (Memory.memApply u m) ∧
+    (∀ b', b' ≠ b → Memory.view s' b' = Memory.view s b') := by
+  intro s'
+  have hI' : Memory.Inv s' := Memory.inv_step hI _
+  have hv' : Memory.view s' = Spec.update (Memory.view s) b (Memory.memApply u) :=
+    Memory.refines hI (.update b u) ⟨by rw [hv]; rfl, fun h => by cases h⟩
+  have hvb : Memory.view s' b = some (Memory.memApply u m, es) := by
+    rw [hv']; exact update_self hv _
+  refine ⟨hvb, ?_, fun b' h => Memory.only_step hI (.update b u) b' h⟩
+  rw [Memory.getMetadata_eq hI', hvb]
+
+/-- deleting a bucket removes it from view and listing; every other bucket is unchanged -/
+theorem delete_removes_bucket_and_events_memory {s : Memory.St D} (hI : Memory.Inv s) {b : String}
+    (hb : (Memory.view s b).isSome) :
+    let s' := Memory.step s (.deleteBucket b)
+    Memory.view s' b = none ∧ (∀ m, (b, m) ∉ Memory.bucketsOf s') ∧
+    Memory.getMetadata s' b = .error .valueError ∧
+    (∀ b', b' ≠ b → Memory.view s' b' = Memory.view s b') := by
+  intro s'
+  have hI' : Memory.Inv s' := Memory.inv_step hI _
+  have hv' : Memory.view s' = Spec.deleteBucket (Memory.view s) b :=
+    Memory.refines hI (.deleteBucket b) hb
+  have hvb : Memory.view s' b = none := by rw [hv']; exact deleteBucket_self _ b
+  refine ⟨hvb, unlisted_of_view (Memory.bucketsOf_eq hI') hvb, ?_,
+    fun b' h => Memory.only_step hI (.deleteBucket b) b' h⟩
+  rw [Memory.getMetadata_eq hI', hvb]
+
+/-- delete then create under the same id: an empty bucket with the new metadata -/
+theorem recreate_is_empty_memory {s : Memory.St D} (hI : Memory.Inv s) (b : String) (m : Meta) :
+    Memory.view (Memory.step (Memory.step s (.deleteBucket b)) (.create b m)) b =
+      some (Memory.storedMeta b m, []) :=
+  (create_listed_memory (Memory.inv_step hI _) b m).1
+
+/-- on a bucket that does not exist: not listed (the driver's KeyError); describe, update and
+    delete raise ValueError; the state is unchanged -/
+theorem missing_raises_and_unchanged_memory {s : Memory.St D} (hI : Memory.Inv s) {b : String}
+    (hb : Memory.view s b = none) :
+    (∀ m, (b, m) ∉ Memory.bucketsOf s) ∧
+    Memory.getMetadata s b = .error .valueError ∧
+    (∀ u, Memory.updateBucket s b u = .error .valueError ∧ Memory.step s (.update b u) = s) ∧
+    Memory.deleteBucket s b = .error .valueError ∧ Memory.step s (.deleteBucket b) = s := by
+  refine ⟨unlisted_of_view (Memory.bucketsOf_eq hI) hb, ?_, ?_, ?_, ?_⟩
+  · rw [Memory.getMetadata_eq hI, hb]
+  · intro u
+    have h := Memory.updateBucket_missing hI hb u
+    exact ⟨h, by simp only [Memory.step, h]⟩
+  · exact Memory.deleteBucket_missing hI hb
+  · simp only [Memory.step, Memory.deleteBucket_missing hI hb]
+
+/-! ## Peewee -/
+
+/-- the listing is the view: `(b, m)` is listed iff bucket `b` reads back with metadata `m` -/
+theorem listing_is_view_peewee {s : Peewee.St D} (hI : Peewee.Inv s) (b : String) (m : Meta) :
+    (b, m) ∈ Peewee.bucketsOf s ↔ ∃ es, Peewee.view s b = some (m, es) :=
+  Peewee.bucketsOf_eq hI b m
+
+/-- no bucket id is listed twice -/
+theorem listing_keys_unique_peewee {s : Peewee.St D} (hI : Peewee.Inv s) :
+    ((Peewee.bucketsOf s).map (·.1)).Nodup := by
+  unfold Peewee.bucketsOf
+  rw [List.map_map]
+  exact hI.bids
+
+/-- describing a bucket returns the metadata of the view (the cache never names a key that is not
+    in the table) -/
+theorem describe_is_view_peewee {s : Peewee.St D} (hI : Peewee.Inv s) (b : String) :
+    Peewee.getMetadata s b =
+      (match Peewee.view s b with | some (m, _) => .ok m | none => .error .valueError) :=
+  Peewee.getMetadata_eq hI
+
+/-- the `bucket_keys` cache equals the bucket table (id ↦ key) in every state satisfying the
+    invariant — hence after every step and in every reachable state; in particular the cached key
+    of `b` exists iff the bucket does -/
+theorem peewee_keys_coherent {s : Peewee.St D} (hI : Peewee.Inv s) :
+    s.keys = s.buckets.map (fun r => (r.bid, r.key)) ∧
+    (∀ op : Op D, (Peewee.step s op).keys =
+      (Peewee.step s op).buckets.map (fun r => (r.bid, r.key))) ∧
+    (∀ b, Peewee.keyOf s b = none ↔ Peewee.view s b = none) :=
+  ⟨hI.cache, fun op => (Peewee.inv_step hI op).cache, fun b => Peewee.keyOf_none_iff hI b⟩
+
+/-- in every state reachable from the empty store the cache equals the table -/
+theorem peewee_keys_coherent_reachable (ops : List (Op D)) :
+    (Peewee.run ({} : Peewee.St D) ops).keys =
+      (Peewee.run ({} : Peewee.St D) ops).buckets.map (fun r => (r.bid, r.key)) :=
+  (inv_foldl Peewee.step Peewee.Inv (fun _ op h => Peewee.inv_step h op) ops _ Peewee.inv_init).cache
+
+/-- creating a bucket under a fresh id: it reads back empty with exactly the metadata given, is
+    listed (once) with that metadata, and every other bucket and listing entry is unchanged -/
+theorem create_listed_peewee {s : Peewee.St D} (hI : Peewee.Inv s) {b : String}
+    (hb : Peewee.view s b = none) (m : Meta) :
+    let s' := Peewee.step s (.create b m)
+    Peewee.view s' b = some (m, []) ∧
+    (b, m) ∈ Peewee.bucketsOf s' ∧ (∀ m', (b, m') ∈ Peewee.bucketsOf s' → m' = m) ∧
+    (∀ b', b' ≠ b → Peewee.view s' b' = Peewee.view s b') ∧
+    (∀ b' m', b' ≠ b → ((b', m') ∈ Peewee.bucketsOf s' ↔ (b', m') ∈ Peewee.bucketsOf s)) := by
+  intro s'
+  have hI' : Peewee.Inv s' := Peewee.inv_step hI _
+  have hv : Peewee.view s' = Spec.create (Peewee.view s) b m := Peewee.refines hI (.create b m) hb
+  have hvb : Peewee.view s' b = some (m, []) := by rw [hv]; exact create_self _ b m
+  have hfr : ∀ b', b' ≠ b → Peewee.view s' b' = Peewee.view s b' :=
+    fun b' h => Peewee.only_step hI (.create b m) b' h
+  obtain ⟨h1, h2⟩ := listed_of_view (Peewee.bucketsOf_eq hI') hvb
+  exact ⟨hvb, h1, h2, hfr, fun b' m' h =>
+    listed_congr (Peewee.bucketsOf_eq hI) (Peewee.bucketsOf_eq hI') (hfr b' h) m'⟩
+
+/-- creating under an id that exists is rejected (IntegrityError) and changes nothing -/
+theorem create_existing_rejected_peewee {s : Peewee.St D} (hI : Peewee.Inv s) {b : String}
+    (hb : (Peewee.view s b).isSome) (m : Meta) :
+    Peewee.createBucket s b m = .error .integrity ∧ Peewee.step s (.create b m) = s := by
+  have h := Peewee.createBucket_exists (m := m) hI hb
+  exact ⟨h, by simp only [Peewee.step, h]⟩
+
+/-- an update changes the metadata to `u.apply m` (`update_fields_sql`; no field supplied: no
+    change), keeps the events, and leaves every other bucket alone -/
+theorem update_only_supplied_peewee {s : Peewee.St D} (hI : Peewee.Inv s) {b : String} {m : Meta}
+    {es : List (Ev D)} (hv : Peewee.view s b = some (m, es)) (u : Upd) :
+    let s' := Peewee.step s (.update b u)
+    Peewee.view s' b = some (u.apply m, es) ∧ Peewee.getMetadata s' b = .ok (u.apply m) ∧
+    (∀ b', b' ≠ b → Peewee.view s' b' = Peewee.view s b') := by
+  intro s'
+  have hI' : Peewee.Inv s' := Peewee.inv_step hI _
+  have hv' : Peewee.view s' = Spec.update (Peewee.view s) b u.apply :=
+    Peewee.refines hI (.update b u) ⟨by rw [hv]; rfl, fun h => by cases h⟩
+  have hvb : Peewee.view s' b = some (u.apply m, es) := by rw [hv']; exact update_self hv _
+  refine ⟨hvb, ?_, fun b' h => Peewee.only_step hI (.update b u) b' h⟩
+  rw [Peewee.getMetadata_eq hI', hvb]
+
+/-- deleting a bucket removes it from view and listing; every other bucket is unchanged -/
+theorem delete_removes_bucket_and_events_peewee {s : Peewee.St D} (hI : Peewee.Inv s) {b : String}
+    (hb : (Peewee.view s b).isSome) :
+    let s' := Peewee.step s (.deleteBucket b)
+    Peewee.view s' b = none ∧ (∀ m, (b, m) ∉ Peewee.bucketsOf s') ∧
+    Peewee.getMetadata s' b = .error .valueError ∧
+    (∀ b', b' ≠ b → Peewee.view s' b' = Peewee.view s b') := by
+  intro s'
+  have hI' : Peewee.Inv s' := Peewee.inv_step hI _
+  have hv' : Peewee.view s' = Spec.deleteBucket (Peewee.view s) b :=
+    Peewee.refines hI (.deleteBucket b) hb
+  have hvb : Peewee.view s' b = none := by rw [hv']; exact deleteBucket_self _ b
+  refine ⟨hvb, unlisted_of_view (Peewee.bucketsOf_eq hI') hvb, ?_,
+    fun b' h => Peewee.only_step hI (.deleteBucket b) b' h⟩
+  rw [Peewee.getMetadata_eq hI', hvb]
+
+/-- delete then create under the same id yields an empty bucket although the new bucket row may get
+    the key of the deleted one (`max key + 1`): the invariant's foreign-key clause — no event row
+    refers to a key that is not in the bucket table — is what excludes stale rows -/
+theorem recreate_is_empty_peewee {s : Peewee.St D} (hI : Peewee.Inv s) {b : String}
+    (hb : (Peewee.view s b).isSome) (m : Meta) :
+    Peewee.view (Peewee.step (Peewee.step s (.deleteBucket b)) (.create b m)) b = some (m, []) :=
+  (create_listed_peewee (Peewee.inv_step hI _)
+    (delete_removes_bucket_and_events_peewee hI hb).1 m).1
+
+/-- on a bucket that does not exist: not listed (the driver's KeyError); describe, update and
+    delete raise ValueError; the state is unchanged -/
+theorem missing_raises_and_unchanged_peewee {s : Peewee.St D} (hI : Peewee.Inv s) {b : String}
+    (hb : Peewee.view s b = none) :
+    (∀ m, (b, m) ∉ Peewee.bucketsOf s) ∧
+    Peewee.getMetadata s b = .error .valueError ∧
+    (∀ u, Peewee.updateBucket s b u = .error .valueError ∧ Peewee.step s (.update b u) = s) ∧
+    Peewee.deleteBucket s b = .error .valueError ∧ Peewee.step s (.deleteBucket b) = s := by
+  refine ⟨unlisted_of_view (Peewee.bucketsOf_eq hI) hb, ?_, ?_, ?_, ?_⟩
+  · rw [Peewee.getMetadata_eq hI, hb]
+  · intro u
+    have h := Peewee.updateBucket_missing (u := u) hI hb
+    exact ⟨h, by simp only [Peewee.step, h]⟩
+  · exact Peewee.deleteBucket_missing hI hb
+  · simp only [Peewee.step, Peewee.deleteBucket_missing hI hb]
+
+/-! ## non-vacuity: the hypotheses hold on concrete two-bucket states -/
+
+example := create_listed_sqlite Sqlite.exS_inv (b := "c") rfl default
+example := update_only_supplied_sqlite Sqlite.exS_inv (b := "a") rfl (u := { name := some "n" }) rfl
+example := delete_removes_bucket_and_events_sqlite Sqlite.exS_inv (b := "a") rfl
+example : Sqlite.view (Sqlite.step (Sqlite.step Sqlite.exS (.deleteBucket "a")) (.create "a" default))
+    "a" = some (default, []) := recreate_is_empty_sqlite Sqlite.exS_inv rfl default
+example := missing_raises_and_unchanged_sqlite Sqlite.exS_inv (b := "zz") rfl
+example := create_listed_memory Memory.exSt_inv "c" Memory.exMeta
+/-- the memory backend's `create_bucket` over an existing id replaces the bucket by an empty one -/
+example : Memory.view (Memory.step Memory.exSt (.create "b" Memory.exMeta)) "b" =
+    some (Memory.exMeta, []) := (create_listed_memory Memory.exSt_inv "b" Memory.exMeta).1
+example := update_only_supplied_memory Memory.exSt_inv (b := "b") rfl { type := some "u" }
+example := delete_removes_bucket_and_events_memory Memory.exSt_inv (b := "b") rfl
+example := missing_raises_and_unchanged_memory Memory.exSt_inv (b := "zz") rfl
+example := create_listed_peewee Peewee.Example.inv0 (b := "c") rfl Peewee.Example.m0
+example := update_only_supplied_peewee Peewee.Example.inv0 (b := "a") Peewee.Example.view_a
+  { hostname := some "x" }
+example : Peewee.view (Peewee.step (Peewee.step Peewee.Example.s0 (.deleteBucket "b"))
+    (.create "b" Peewee.Example.m0)) "b" = some (Peewee.Example.m0, []) :=
+  recreate_is_empty_peewee Peewee.Example.inv0 rfl _
+example := missing_raises_and_unchanged_peewee Peewee.Example.inv0 (b := "zz") rfl
+example := peewee_keys_coherent Peewee.Example.inv0
+
 end AwProofs.C05
